@@ -13,6 +13,18 @@ HELPERS = {
     def area(self):
         return 3 * self.r * self.r
 
+    @property
+    def origin(self):
+        import geo
+
+        return geo.Origin()
+
+    @property
+    def center(self):
+        import geo.util
+
+        return geo.util.Point(0, 0)
+
 
 class Square:
     def __init__(self, s=1):
@@ -25,7 +37,8 @@ class Square:
 def unit():
     return Circle(1)
 ''',
-    "geo/__init__.py": "",
+    "geo/__init__.py": "class Origin:\n    label = 'o'\n",
+    "generic_defs.py": "from typing import TypeVar\n\nT = TypeVar('T')\n",
     "geo/util.py": '''class Point:
     def __init__(self, x=0, y=0):
         self.x, self.y = x, y
@@ -40,6 +53,18 @@ def origin():
 
     def area(self):
         return 3 * self.r * self.r
+
+    @property
+    def origin(self):
+        import geo
+
+        return geo.Origin()
+
+    @property
+    def center(self):
+        import geo.util
+
+        return geo.util.Point(0, 0)
 
 
 class Square:
@@ -124,6 +149,9 @@ def build(rng, name, opts=None):
         L.append(rng.choice(["from __future__ import division", "from __future__ import annotations", "from __future__ import print_function, division"]))
         feats.append("future-import")
     L.append("import functools  # needed by the decorator below")
+    want_typevar = chance(0.25, "typevar-annotation")
+    if want_typevar:
+        L.append("from generic_defs import T")
     if chance(0.5, "typing"):
         L.append("import typing" if "typing" in force else rng.choice(["from typing import List", "from typing import Dict, List", "from typing import Optional", "import typing"]))
         feats.append("typing-import")
@@ -273,6 +301,24 @@ def build(rng, name, opts=None):
             "",
         ]
         feats.append("posonly-star")
+    if chance(0.3, "package-and-submodule-classes"):
+        # one signature naming a class of a package and a class of its submodule
+        L += [
+            "def anchor(p, o):",
+            "    return (p.x, o.label)",
+            "",
+            "",
+        ]
+        feats.append("package-and-submodule-classes")
+    if want_typevar:
+        # an existing annotation that uses a type variable the module imports (it has no `T = TypeVar(...)` of its own)
+        L += [
+            "def ident(x: T, times=1) -> T:",
+            "    return x",
+            "",
+            "",
+        ]
+        feats.append("typevar-annotation")
     if chance(0.35, "typing-named-module"):
         L += [
             "def tag_of(t):",
@@ -386,6 +432,10 @@ def build(rng, name, opts=None):
         L += ["    out.append(clamp(3, lo=5))", "    out.append(join('a', 'b', sep='-'))"]
     if "def tag_of(" in src:
         L += [f"    out.append(tag_of({Col}('blue').tag))"]
+    if "def anchor(" in src:
+        L += ["    out.append(anchor(c.center, c.origin))"]
+    if "def ident(" in src:
+        L += ["    out.append(ident(1))", "    out.append(ident('s', 2))"]
     if "def resize(" in src:
         L += ["    out.append(resize(c))", "    out.append(resize(c, 2.0, tag='b'))"]
     if "def scale_all(" in src:
